@@ -39,6 +39,8 @@ func runC18(res *Result, rng *RNG, tier string, outDir string) {
 		n = 7000
 	}
 	var lines, descs []string
+	var prevSnapshot []byte
+	var prevContent []azOp
 	for i := 0; i < n; i++ {
 		r := rng.Fork()
 		errProne := r.Chance(8)
@@ -100,6 +102,25 @@ func runC18(res *Result, rng *RNG, tier string, outDir string) {
 			direct, _ := newAuthorizer(tok, 1000, 100, entryAuthorizerFor)
 			applyContent(direct, content)
 			loaded, _ := newAuthorizer(tok, 1000, 100, entryAuthorizerFor)
+			// half of the time the receiving authorizer is a POOLED one: it has served another
+			// snapshot (loaded, evaluated) and was Reset
+			if prevSnapshot != nil && r.Chance(50) {
+				func() {
+					defer func() { recover() }()
+					if r.Bool() {
+						loaded.LoadPolicies(prevSnapshot)
+					} else {
+						applyContent(loaded, prevContent)
+					}
+					loaded.Authorize()
+				}()
+				loaded.Reset()
+				res.Dist("restored-into:pooled-authorizer")
+				rep["restored_into"] = "an authorizer that received (loaded, or through Add* calls) and evaluated the previous content, then Reset"
+			} else {
+				res.Dist("restored-into:new-authorizer")
+				delete(rep, "restored_into")
+			}
 			var loadErr error
 			func() {
 				defer func() {
@@ -120,7 +141,7 @@ func runC18(res *Result, rng *RNG, tier string, outDir string) {
 			c1, _, f1 := classifyVerdict(direct.Authorize())
 			c2, _, f2 := classifyVerdict(loaded.Authorize())
 			res.Dist("verdict:" + strings.SplitN(c1, ":", 2)[0])
-			rep2 := map[string]interface{}{"content": rep["content"], "token": tname, "direct": c1 + " " + strings.Join(f1, ","), "restored": c2 + " " + strings.Join(f2, ",")}
+			rep2 := map[string]interface{}{"content": rep["content"], "restored_into": rep["restored_into"], "token": tname, "direct": c1 + " " + strings.Join(f1, ","), "restored": c2 + " " + strings.Join(f2, ",")}
 			if c1 != c2 || strings.Join(f1, ",") != strings.Join(f2, ",") {
 				res.Violate("verdict-differs:"+tname, fmt.Sprintf("restored authorizer gives %s %v, the original content gives %s %v", c2, f2, c1, f1), rep2)
 			}
@@ -148,6 +169,7 @@ func runC18(res *Result, rng *RNG, tier string, outDir string) {
 				res.Violate("save-after-evaluation:"+c1, "SerializePolicies succeeds after Authorize returned "+c1, rep2)
 			}
 		}
+		prevSnapshot, prevContent = snapshot, content
 		// refused after a failed run and after Query
 		{
 			lim, _ := newAuthorizer(tokA, 1, 100, entryAuthorizerFor)
